@@ -245,8 +245,96 @@ def _variants():
         V("mesh-test-cell-transposed", replace_expr(MP, "MeshPatt._occurrences_in_perm", "(x, y) in self.shading", "(y, x) in self.shading"), "fire", "C17-K1"),
         V("mesh-test-not-in", replace_expr(MP, "MeshPatt._occurrences_in_perm", "(x, y) in self.shading", "(x, y) not in self.shading"), "fire", "C17-K1"),
         V("mesh-counter-on-all-points", insert_stmt(MP, "MeshPatt._occurrences_in_perm", "y = sum((1 for candidate_element in candidate if candidate_element < element))", "x += 0\nx += 1", "before"), "fire", "C17-K1"),
+        V("bisc-predicate-range-n", replace_expr("permuta/bisc/bisc.py", "bisc", "range(n + 1)", "range(1, n + 1)"), "fire", "C17-N1"),
+        V("bisc-list-skips-empty", replace_stmt("permuta/bisc/bisc.py", "bisc", "D[len(perm)].append(perm)", "if len(perm) > 0:\n    D[len(perm)].append(perm)"), "fire", "C17-N1"),
+        V("bisc-predicate-negated", replace_expr("permuta/bisc/bisc.py", "bisc", "A(perm)", "not A(perm)"), "fire", "C17-N1"),
         # silent
         V("reformat-bisc-sub", reformat_only(BS), "silent"),
         V("bisc-swap-sides", replace_expr(BS, "perm_contains_cl_patt_many_shadings", "candidate_elt < element", "element > candidate_elt"), "silent"),
         V("rename-counter", [rename_local(BS, "perm_contains_cl_patt_many_shadings", "x", "col"), rename_local(BS, "perm_contains_cl_patt_many_shadings", "y", "row")], "silent"),
     ]
+
+
+# ------------------------------------------------------------------ N1: input normalisation
+
+
+def rule_n1(ctx: Ctx) -> None:
+    """List, predicate and dictionary inputs are all turned into {length: [permutations]} before mining:
+    the list is grouped by length without filtering, the predicate is evaluated on every permutation of every
+    length 0..n, the dictionary is used as given; then mine -> forb with the same bounds."""
+    bisc_mod = ctx.repo.module("permuta.bisc.bisc")
+    f = bisc_mod.functions.get("bisc")
+    if f is None:
+        raise AnalysisError("permuta.bisc.bisc.bisc vanished")
+    a, m, n = f.params[0], f.params[1], f.params[2]
+    chain = [st for st in f.body if isinstance(st, ast.If) and f"isinstance({a}" in unparse(st.test)]
+    if len(chain) != 1:
+        raise AnalysisError(f"{f.where}: dispatch on the input form not recognised")
+    cur: Optional[ast.If] = chain[0]
+    seen = {}
+    while cur is not None:
+        seen[unparse(cur.test)] = cur
+        cur = cur.orelse[0] if len(cur.orelse) == 1 and isinstance(cur.orelse[0], ast.If) else None
+    lst = seen.get(f"isinstance({a}, list)")
+    fn = seen.get(f"isinstance({a}, types.FunctionType)")
+    dc = seen.get(f"isinstance({a}, dict)")
+    if lst is None or fn is None or dc is None:
+        raise AnalysisError(f"{f.where}: the three input forms are not all dispatched")
+    # list
+    loops = [s for s in lst.body if isinstance(s, ast.For)]
+    ok = len(loops) == 1 and unparse(loops[0].iter) == a and len(loops[0].body) == 1
+    d_name = None
+    for s in lst.body:
+        if isinstance(s, ast.Assign) and unparse(s.value) in ("defaultdict(list)", "collections.defaultdict(list)"):
+            d_name = unparse(s.targets[0])
+    if ok:
+        p = unparse(loops[0].target)
+        ok = isinstance(loops[0].body[0], ast.Expr) and unparse(loops[0].body[0]) == f"{d_name}[len({p})].append({p})"
+    if ok and d_name:
+        ctx.ok("C17-N1", f.where, "list input: every permutation filed under its length", loops[0], f)
+    else:
+        ctx.violation("C17-N1", f, lst, "list input is not grouped as D[len(perm)].append(perm) for every element")
+    # predicate
+    outer = [s for s in fn.body if isinstance(s, ast.For)]
+    good = False
+    if len(outer) == 1 and unparse(outer[0].iter) == f"range({n} + 1)" and len(outer[0].body) == 1 and isinstance(outer[0].body[0], ast.For):
+        i = unparse(outer[0].target)
+        inner = outer[0].body[0]
+        p = unparse(inner.target)
+        if unparse(inner.iter) == f"Perm.of_length({i})" and len(inner.body) == 1 and isinstance(inner.body[0], ast.If) and unparse(inner.body[0].test) == f"{a}({p})" \
+                and len(inner.body[0].body) == 1 and isinstance(inner.body[0].body[0], ast.Expr) and unparse(inner.body[0].body[0]).endswith(f"[{i}].append({p})") and not inner.body[0].orelse:
+            good = True
+    if good:
+        ctx.ok("C17-N1", f.where, "predicate input: exactly the permutations of lengths 0..n satisfying it, filed under their length", outer[0], f)
+    else:
+        ctx.violation("C17-N1", f, fn, f"predicate input is not expanded to {{i: [p in S_i if A(p)]}} for i in range({n} + 1)")
+    # dict
+    if [unparse(s) for s in dc.body] == [f"{d_name} = {a}"]:
+        ctx.ok("C17-N1", f.where, "dictionary input is used as given", dc, f)
+    else:
+        ctx.violation("C17-N1", f, dc, "dictionary input is transformed before mining")
+    # pipeline: mine(D, m, n) -> forb(<both results of mine>, m) -> returned
+    mines = [st for st in f.body if isinstance(st, ast.Assign) and isinstance(st.value, ast.Call) and call_name(st.value) == ("mine",)]
+    forbs = [st for st in f.body if isinstance(st, ast.Assign) and isinstance(st.value, ast.Call) and call_name(st.value) == ("forb",)]
+    rets = [st for st in f.body if isinstance(st, ast.Return)]
+    if len(mines) != 1 or len(forbs) != 1 or len(rets) != 1 or not isinstance(mines[0].targets[0], ast.Tuple):
+        raise AnalysisError(f"{f.where}: mine/forb pipeline not recognised")
+    mres = [unparse(e) for e in mines[0].targets[0].elts]
+    margs = [unparse(x) for x in mines[0].value.args]
+    fargs = [unparse(x) for x in forbs[0].value.args]
+    if margs[:3] == [d_name, m, n] and fargs[:3] == mres + [m] and unparse(rets[0].value) == unparse(forbs[0].targets[0]):
+        ctx.ok("C17-N1", f.where, "mine(D, m, n) -> forb(ci, goodpatts, m) -> result", f.node, f)
+    else:
+        ctx.violation("C17-N1", f, mines[0], f"the pipeline is mine({', '.join(margs)}) -> forb({', '.join(fargs)}); expected mine({d_name}, {m}, {n}) -> forb({', '.join(mres)}, {m}) and its result returned")
+
+
+_OLD_RUN = run
+
+
+def run(ctx: Ctx) -> None:  # noqa: F811
+    _OLD_RUN(ctx)
+    ctx.run(rule_n1, ctx)
+
+
+FLOORS["C17-N1"] = 4
+EXPLANATION = EXPLANATION.replace("Decided – one clause only,", "Decided – two clauses: the three input forms are normalised to the same {length: [permutations]} dictionary before mining (N1); and,")
